@@ -476,8 +476,14 @@ class HTMLSanitizer(object):
         if tag not in self.safe_tags:
             return False
         if tag.localname == 'input':
-            input_type = attrs.get('type', '').lower()
-            if input_type == 'password':
+            # Look at the value the way it is emitted (and read by a browser):
+            # with its character references decoded
+            input_type = attrs.get('type', '')
+            decoded = stripentities(input_type)
+            while decoded != input_type:
+                input_type = decoded
+                decoded = stripentities(input_type)
+            if input_type.lower() == 'password':
                 return False
         return True
 
